@@ -19,7 +19,8 @@ def key(t):
 class C02(C01):
     pid = "C02"
     coq_targets = ["Properties/C02.vo", "Model/CheckC01.vo"]
-    theorems = ["C02_bounds_of_kept_grouping", "C02_group_count", "C02_checker_predicate_holds_on_model"]
+    theorems = ["C02_bounds_of_kept_grouping", "C02_rows_ok_means", "C02_checker_predicate_holds_on_model",
+                "C02_domain_guard"]
 
     def oracle(self, case, out):
         ok, msg = super().oracle(case, out)
